@@ -255,6 +255,15 @@ def _cell_case(mask, via):
             f = formulas.formula('Fe2O3')
             V = f.volume(a=a, **kw)
             scale = 1e-24
+            # lattice parameters given positionally (two or more) are lattice parameters too
+            given = [n for n in names if n in vals]
+            k = 0
+            while k < len(names) and names[k] in vals:
+                k += 1
+            if k >= 1:
+                rest_kw = {n: vals[n] for n in given if names.index(n) >= k}
+                Vp = f.volume(a, *[vals[n] for n in names[:k]], **rest_kw)
+                E.eq('cell_volume_positional', Vp, V)
         E.eq('cell_volume_sq', V * V, (a * b * c) * (a * b * c) * X * scale * scale)
         E.true('cell_volume_nonneg', V >= 0)
     return h
@@ -278,7 +287,8 @@ def cases(tier):
     out.append(Case('single_atom_default', _single_atom_default, max_paths=mp, timeout_ms=to))
     rep = [(('H', 'Y'), 'H', 'D', True, False), (('H', 'Y'), 'H', 'D', False, False), (('H', 'Y'), 'H', 'D', True, True),
            (('H', 'Y'), 'H', 'D', False, True), (('H1', 'D', 'Y'), 'H1', 'D', True, False), (('X', 'Y'), 'Z', 'D', True, False),
-           (('X', 'Y'), 'Z', 'D', False, False), (('Xq', 'Y'), 'Xq', 'Xiq', True, False), (('H',), 'H', 'D', True, False)]
+           (('X', 'Y'), 'Z', 'D', False, False), (('Xq', 'Y'), 'Xq', 'Xiq', True, False), (('H',), 'H', 'D', True, False),
+           (('X', 'Y'), 'X', 'Z', True, False), (('Xi', 'Y', 'D'), 'Y', 'Xi', True, True)]
     if th:
         rep += [(('X', 'Xi', 'Y'), 'X', 'Xi', True, False), (('H', 'H1', 'D', 'Y'), 'H1', 'H', True, False), (('Xq', 'Xiq', 'Y'), 'Xiq', 'Xq', True, False),
                 (('D', 'T', 'H'), 'T', 'D', True, False), (('Xi', 'Y'), 'Xi', 'Y', True, False), (('Xi', 'Y'), 'Y', 'Xi', False, False),
